@@ -969,6 +969,10 @@ inline void dumpEclipseStateExtras(Dump& d, const Opm::EclipseState& es) {
     d.kv("rs.rsnodes", rs.tabdims().getNumRSNodes());
     d.kv("rs.phase.oil", rs.phases().active(Opm::Phase::OIL)); d.kv("rs.phase.gas", rs.phases().active(Opm::Phase::GAS)); d.kv("rs.phase.water", rs.phases().active(Opm::Phase::WATER));
     d.kv("rs.phase.polymer", rs.phases().active(Opm::Phase::POLYMER));
+    for (int ph = 0; ph < Opm::NUM_PHASES_IN_ENUM; ++ph) d.kv("rs.phase." + std::to_string(ph), rs.phases().active(static_cast<Opm::Phase>(ph)));
+    // every FIP report flag through the public observer (FIPConfig::m_flags is a 17-bit bitset; RPTSOL mnemonics)
+    for (int f = 0; f < static_cast<int>(Opm::FIPConfig::OutputField::NUM_FIP_REPORT); ++f)
+        d.kv("cfg.fip.output." + std::to_string(f), es.cfg().fip().output(static_cast<Opm::FIPConfig::OutputField>(f)));
     d.kv("rs.wsegdims", std::to_string(rs.wellSegmentDimensions().maxSegmentedWells()) + "/" + std::to_string(rs.wellSegmentDimensions().maxSegmentsPerWell()) + "/" + std::to_string(rs.wellSegmentDimensions().maxLateralBranchesPerWell()));
     d.kv("rs.welldims", std::to_string(rs.wellDimensions().maxWellsPerGroup()) + "/" + std::to_string(rs.wellDimensions().maxGroupsInField()) + "/" + std::to_string(rs.wellDimensions().maxWellListsPrWell()) + "/" + std::to_string(rs.wellDimensions().maxDynamicWellLists()));
     d.kv("rs.aqudims", std::to_string(rs.aquiferDimensions().maxAnalyticAquifers()) + "/" + std::to_string(rs.aquiferDimensions().maxAnalyticAquiferConnections()));
@@ -1360,6 +1364,32 @@ void roundTrip(const std::string& key, const std::string& tag, const T& orig, vh
     if (!bad) once.ok();
 }
 
+// EclipseState has no operator==; the serialised parts that have one are compared (grid and field properties are
+// documented as distributed separately).  A comparison that THROWS already on (original, original) cannot be
+// evaluated on that object (JFunc::operator== calls the throwing getters: any deck with JFUNC WATER or GAS; see
+// design.d/C11.jfunc-eq.patch) and is only counted; one that throws on (original, copy) alone is a difference.
+inline long& eqThrowsOnOriginal() { static long n = 0; return n; }
+template <class Part> void cmpPart(const char* name, const Part& a, const Part& b, std::string& parts) {
+    try { if (!(a == b)) parts += std::string(" ") + name; }
+    catch (const std::exception&) {
+        bool self = false;
+        try { (void)(a == a); } catch (const std::exception&) { self = true; }
+        if (self) eqThrowsOnOriginal()++; else parts += std::string(" ") + name + "(comparison-throws)";
+    }
+}
+inline bool eclipseStateEqual(const Opm::EclipseState& a, const Opm::EclipseState& b, std::string& detail) {
+    std::string parts;
+    cmpPart("EclipseConfig", a.cfg(), b.cfg(), parts);
+    cmpPart("Runspec", a.runspec(), b.runspec(), parts);
+    cmpPart("TableManager", a.getTableManager(), b.getTableManager(), parts);
+    cmpPart("SimulationConfig", a.getSimulationConfig(), b.getSimulationConfig(), parts);
+    cmpPart("AquiferConfig", a.aquifer(), b.aquifer(), parts);
+    cmpPart("TracerConfig", a.tracer(), b.tracer(), parts);
+    if (parts.empty()) return true;
+    detail = " (parts that differ:" + parts + ")";
+    return false;
+}
+
 // ---- decks ------------------------------------------------------------------------------------
 
 struct Loaded {
@@ -1410,7 +1440,7 @@ inline void checkLoaded(const std::string& tag, const Loaded& L, vh::PropLog& pl
             return false;
         }, LENGTH);
     roundTrip<Opm::EclipseState>("eclipsestate", tag, *L.es, plog, stats, dumpEclipseState,
-        [](const Opm::EclipseState&, const Opm::EclipseState&, std::string&) { return true; /* no operator== */ }, LENGTH);
+        eclipseStateEqual, LENGTH);
     roundTrip<Opm::SummaryConfig>("summaryconfig", tag, *L.smry, plog, stats, dumpSummaryConfig,
         [](const Opm::SummaryConfig& a, const Opm::SummaryConfig& b, std::string&) { return a == b; }, EXACT);
     // parts of the schedule on their own (pointer-free: exact bytes)
@@ -1641,7 +1671,15 @@ inline std::string genDeck(vh::Rng& r, std::map<std::string, long>& stats) {
         o << " /\n";
     };
     if (r.coin(1, 3)) rptrst();
-    if (r.coin(1, 4)) kw("RPTSOL") << " RESTART=" << r.range(1, 4) << " FIP=" << r.range(1, 3) << " /\n";
+    if (r.coin(1, 2)) {
+        // every mnemonic FIPConfig::parseRPT knows (17 flags; FIPVE is the highest, bit 16)
+        static const struct { const char* m; int max; } fipM[] = { {"FIP", 3}, {"FIPFOAM", 2}, {"FIPPLY", 2}, {"FIPSOL", 2}, {"FIPSURF", 2}, {"FIPTEMP", 2}, {"FIPHEAT", 2}, {"FIPTR", 2}, {"FIPRESV", 1}, {"FIPVE", 1} };
+        kw("RPTSOL");
+        if (r.coin()) o << " RESTART=" << r.range(1, 4);
+        const bool all = r.coin(1, 6);
+        for (const auto& m : fipM) if (all || r.coin(1, 3)) { o << " " << m.m; if (m.max > 1 && r.coin(2, 3)) o << "=" << r.range(1, m.max); stats[std::string("deck.rptsol.") + m.m]++; }
+        o << " /\n";
+    }
 
     kw("SUMMARY");
     const SV fvec{"FOPR", "FOPT", "FWPR", "FGPR", "FWIR", "FPR", "FWCT", "FGOR"};
@@ -2101,11 +2139,14 @@ inline void runDynamic(vh::Rng& r, vh::PropLog& plog, std::map<std::string, long
             for (int w = r.range(0, 4); w > 0; --w) {
                 Opm::data::Well dw;
                 dw.rates.set(Opm::data::Rates::opt::oil, rndVal(r)); if (r.coin()) dw.rates.set(Opm::data::Rates::opt::wat, rndVal(r)); if (r.coin()) dw.rates.set(Opm::data::Rates::opt::gas, rndVal(r));
+                { const bool allOpts = r.coin(1, 5); for (int b = 3; b < 23; ++b) if (b != 19 && (allOpts || r.coin(1, 4))) dw.rates.set(static_cast<Opm::data::Rates::opt>(1u << b), rndVal(r)); }   // 23 option bits, highest mass_gas = 1 << 22 (19 = tracer, named)
+                if (r.coin(1, 3)) dw.rates.set(Opm::data::Rates::opt::tracer, rndVal(r), "T1");
                 dw.bhp = rndVal(r); dw.thp = rndVal(r); dw.temperature = rndVal(r); dw.control = r.range(0, 9); dw.dynamicStatus = r.coin() ? Opm::Well::Status::OPEN : Opm::Well::Status::SHUT;
                 for (int c = r.range(0, 3); c > 0; --c) { Opm::data::Connection dc; dc.index = r.below(1000); dc.pressure = rndVal(r); dc.reservoir_rate = rndVal(r); dc.cell_pressure = rndVal(r); dc.trans_factor = rndVal(r); dc.rates.set(Opm::data::Rates::opt::oil, rndVal(r)); dw.connections.push_back(dc); }
                 for (int s = r.range(0, 2); s > 0; --s) { Opm::data::Segment sg; sg.segNumber = r.range(1, 20); sg.rates.set(Opm::data::Rates::opt::wat, rndVal(r)); sg.pressures[Opm::data::SegmentPressures::Value::Pressure] = rndVal(r); dw.segments[sg.segNumber] = sg; }
                 dw.current_control.isProducer = r.coin(); dw.current_control.prod = Opm::Well::ProducerCMode::ORAT; dw.current_control.inj = Opm::Well::InjectorCMode::RATE;
                 dw.guide_rates.set(Opm::data::GuideRateValue::Item::Oil, rndVal(r));
+                for (const auto it : { Opm::data::GuideRateValue::Item::Gas, Opm::data::GuideRateValue::Item::Water, Opm::data::GuideRateValue::Item::ResV }) if (r.coin()) dw.guide_rates.set(it, rndVal(r));
                 wells[rndName(r, "W", 6)] = dw;
             }
             Opm::data::GroupAndNetworkValues gnv;
@@ -2113,6 +2154,7 @@ inline void runDynamic(vh::Rng& r, vh::PropLog& plog, std::map<std::string, long
                 auto& gd = gnv.groupData[rndName(r, "G", 4)];
                 gd.currentControl.set(Opm::Group::ProductionCMode::ORAT, Opm::Group::InjectionCMode::RATE, Opm::Group::InjectionCMode::VREP);
                 gd.guideRates.production.set(Opm::data::GuideRateValue::Item::Oil, rndVal(r));
+                for (const auto it : { Opm::data::GuideRateValue::Item::Gas, Opm::data::GuideRateValue::Item::Water, Opm::data::GuideRateValue::Item::ResV }) { if (r.coin()) gd.guideRates.production.set(it, rndVal(r)); if (r.coin()) gd.guideRates.injection.set(it, rndVal(r)); }
             }
             for (int n = r.range(0, 3); n > 0; --n) gnv.nodeData[rndName(r, "N", 4)].pressure = rndVal(r);
             Opm::data::Aquifers aq;
@@ -2133,6 +2175,12 @@ inline void runDynamic(vh::Rng& r, vh::PropLog& plog, std::map<std::string, long
                     for (const auto& [k, v] : x.solution) { d.kv("sol." + k, static_cast<int>(v.target)); d.kv("sol." + k + ".dim", static_cast<int>(v.dim)); for (double y : v.data<double>()) d.kv("sol." + k + ".v", y); }
                     for (const auto& [k, w] : x.wells) { d.kv("w." + k + ".bhp", w.bhp); d.kv("w." + k + ".oil", w.rates.get(Opm::data::Rates::opt::oil, -1.0)); d.kv("w." + k + ".nconn", w.connections.size()); d.kv("w." + k + ".nseg", w.segments.size()); d.kv("w." + k + ".status", static_cast<int>(w.dynamicStatus)); }
                     for (const auto& [k, g] : x.grp_nwrk.groupData) d.kv("g." + k, g.guideRates.production.get(Opm::data::GuideRateValue::Item::Oil));
+                    const auto grv = [&d](const std::string& p, const Opm::data::GuideRateValue& g) { for (const auto it : { Opm::data::GuideRateValue::Item::Oil, Opm::data::GuideRateValue::Item::Gas, Opm::data::GuideRateValue::Item::Water, Opm::data::GuideRateValue::Item::ResV }) { d.kv(p + ".has", g.has(it)); if (g.has(it)) d.kv(p + ".get", g.get(it)); } };
+                    for (const auto& [k, g] : x.grp_nwrk.groupData) { grv("g." + k + ".gr.prod", g.guideRates.production); grv("g." + k + ".gr.inj", g.guideRates.injection); }
+                    for (const auto& [k, w] : x.wells) {
+                        grv("w." + k + ".gr", w.guide_rates);
+                        for (int b = 0; b < 23; ++b) { const auto o = static_cast<Opm::data::Rates::opt>(1u << b); d.kv("w." + k + ".rates.has", w.rates.has(o)); d.kv("w." + k + ".rates.get", b == 19 ? w.rates.get(o, -1.0, "T1") : w.rates.get(o, -1.0)); }
+                    }
                     for (const auto& [k, n] : x.grp_nwrk.nodeData) d.kv("n." + k, n.pressure);
                     for (const auto& [k, a] : x.aquifer) { d.kv("aq." + std::to_string(k), a.pressure); d.kv("aq.fet." + std::to_string(k), a.typeData.is<Opm::data::AquiferType::Fetkovich>()); }
                     for (const auto& [k, v] : x.extra) { d.kv("extra." + k.key, static_cast<int>(k.dim)); for (double y : v) d.kv("extra." + k.key + ".v", y); }
@@ -2165,6 +2213,7 @@ inline void runObjects(vh::Rng& rng, vh::PropLog& plog, std::map<std::string, lo
         decklog << "ok " << path << " steps=" << L.sched->size() << "\n";
         checkLoaded(fs::path(path).filename().string(), L, plog, stats);
     }
+    stats["eclipsestate.eq_throws_on_original"] = 0;
     // (c) generated decks
     const int ngen = thorough ? 600 : 25;
     for (int i = 0; i < ngen; ++i) {
